@@ -77,9 +77,9 @@ def seeded_extreme(t: Term):
     if not (t[0] == "call" and t[1] in ("min", "max") and len(t[2]) == 1 and not t[3]):
         return None
     a = _unvar(t[2][0])
-    if a[0] != "lin" or a[2] != 0 or any(c != 1 for _, c in a[1]):
+    if a[0] != "concat":
         return None
-    parts = [_unvar(x) for x, _ in a[1]]
+    parts = [_unvar(x) for x in a[1]]
     comps = [x for x in parts if x[0] == "comp" and x[1] == "list"]
     seeds = [y for x in parts if x[0] == "list" for y in x[1]]
     if len(comps) != 1 or len(seeds) != 1 or len(comps) + len([x for x in parts if x[0] == "list"]) != len(parts):
